@@ -609,3 +609,22 @@ Definition flag_filter (own value : N) (sq : nat) (flags : list N) (sel : subsel
       if Nat.eqb (length table) 1 then (sel, false)   (* the only combination produces the forbidden result *)
       else single_remove sq forb sel
   end.
+
+(* ------------------------------------------------------------------ *)
+(* The per-file shortcut for time filters (buildSearchObjects)        *)
+(* ------------------------------------------------------------------ *)
+(* A TimeCondition on the stream alone is  d + a*ftime + b*ltime >= 0.  Before it becomes a filter it is
+   evaluated on the file's (min ftime, min ltime) and (max ftime, max ltime): when both agree the filter is
+   dropped (every stream of the file matches) or the file is skipped (none does).  The code only does this
+   when the filter looks at ONE of the two times (myFactors.ftime == 0 || myFactors.ltime == 0);
+   [guarded = false] describes the variant without that test. *)
+Inductive shortcut := ScKeep | ScDrop | ScSkipFile.
+
+Definition time_filter (a b d ft lt : Z) : bool := Z.leb 0 (d + a * ft + b * lt).
+
+Definition time_shortcut (guarded : bool) (a b d fmin fmax lmin lmax : Z) : shortcut :=
+  if negb guarded || Z.eqb a 0 || Z.eqb b 0 then
+    let early := time_filter a b d fmin lmin in
+    let late := time_filter a b d fmax lmax in
+    if Bool.eqb early late then (if early then ScDrop else ScSkipFile) else ScKeep
+  else ScKeep.
